@@ -47,10 +47,30 @@ def mapping_roundtrip(config: str, key: str, value: str) -> bool:
     if back != value:
         return fail("mapping-not-one-to-one")
     import re
-    from tplz3.c05z import tokens
+    from tplz3.tpltokens import tokens
     exprs = {e for T, tpl in pc.path_templates.items() for (k, kk, e) in tokens(tpl) if k == "ph" and kk == key}
     if not any(re.fullmatch(e, fwd) for e in exprs):
         return fail("mapped-value-rejected-by-path-pattern")
+    return True
+
+
+def path_value_roundtrip(config: str, key: str, value: str) -> bool:
+    """A path value of a mapped key that the path patterns accept, and whose Sid value the Sid patterns accept, must survive
+    path value -> Sid value (path_to_dict) -> path value (dict_to_path): otherwise a typed Sid's path(c) is not the input path."""
+    import re
+    from spil import conf
+    from spil.sid.pathops.pathconfig import get_path_config
+    from spil.util import utils
+    from tplz3.tpltokens import tokens
+
+    pc = get_path_config(config)
+    mp = pc.path_mapping.get(key)
+    back = mp.get(value, value)
+    fwd = utils.get_key(mp, back, back)
+    pexprs = {e for T, tpl in pc.path_templates.items() for (k, kk, e) in tokens(tpl) if k == "ph" and kk == key}
+    sexprs = {e for T, tpl in conf.sid_templates.items() for (k, kk, e) in tokens(tpl) if k == "ph" and kk == key}
+    if any(re.fullmatch(e, value) for e in pexprs) and any(re.fullmatch(e, back) for e in sexprs) and fwd != value:
+        return fail("path-value-does-not-map-back-to-itself")
     return True
 
 
